@@ -1,5 +1,5 @@
 (* C08 — rebin computes each output element from exactly its block of inputs *)
-From NDV Require Import M_Rebin P_Rebin P_RebinPartition.
+From NDV Require Import M_Rebin P_Rebin P_RebinPartition P_RebinOnes.
 Open Scope Z_scope.
 
 (* reading the array through the reshape to (m0,b0,m1,b1,...) and reducing over the odd axes visits,
@@ -52,6 +52,13 @@ Theorem C08_count : forall shape bins, divides_all shape bins ->
   zprod (zip2z Z.div shape bins) * zprod bins = zprod shape.
 Proof. exact block_count. Qed.
 Print Assumptions C08_count.
+
+(* an all-ones bin shape that goes through the reduction (a new unit was asked for): same shape, and every block is
+   the single input at the output's own position - the values are the source's *)
+Theorem C08_ones : forall (A : Type) shape (x : list Z -> A) j, Forall (fun s => 0 <= s) shape -> in_box shape j ->
+  zip2z Z.div shape (ones (length shape)) = shape /\ rebin_block shape (ones (length shape)) x j = [x j].
+Proof. exact @rebin_block_ones. Qed.
+Print Assumptions C08_ones.
 
 Example C08_nonvacuous :
   rebin_plan [4; 6] [2; 3] = Ok (PBins [2; 2] [2; 3])
